@@ -255,6 +255,23 @@ fn case_json(t: &mut Tape, st: &mut Stats, depth: usize, width: usize) -> Verdic
     }
     let text = if t.flip() { doc.to_string() } else { serde_json::to_string_pretty(&doc).unwrap() };
     let before = handles(&ctx);
+    // sometimes the output variable already holds the collection of an earlier parse, which the script kept elsewhere
+    let mut earlier: Option<(Value, String, String)> = None;
+    if t.chance(1, 3) {
+        let doc0 = gen_json(t, 2, 3, st);
+        if !doc0.is_null() && !looks_like_handle(&doc0) {
+            let text0 = doc0.to_string();
+            ctx.variables.insert("v".into(), text0.clone());
+            if let CommandResult::Continue(Some(r0)) = exec_out(&mut ctx, "root", "json_parse", &["--collection".to_string(), "${v}".to_string()]) {
+                ctx.variables.insert("root".into(), r0.clone());
+                ctx.variables.insert("kept".into(), r0.clone());
+                if r0.starts_with("handle:") {
+                    st.class("json-output-variable-holds-an-earlier-document");
+                    earlier = Some((doc0, text0, r0));
+                }
+            }
+        }
+    }
     ctx.variables.insert("v".into(), text.clone());
     let root = match exec_out(&mut ctx, "root", "json_parse", &["--collection".to_string(), "${v}".to_string()]) {
         CommandResult::Continue(Some(r)) => r,
@@ -272,6 +289,17 @@ fn case_json(t: &mut Tape, st: &mut Stats, depth: usize, width: usize) -> Verdic
     };
     if got != want {
         return fail("C17/json/roundtrip", json!({"document": text, "encoded": enc, "expected": want}));
+    }
+    if let Some((doc0, text0, r0)) = earlier {
+        let enc0 = match exec(&mut ctx, "json_encode", &["--collection".to_string(), "${kept}".to_string()]) {
+            CommandResult::Continue(Some(r)) => r,
+            other => return fail("C17/json/earlier-document/encode", json!({"earlier_document": text0, "later_document": text, "got": show(&other)})),
+        };
+        let want0 = normalise(&doc0).unwrap();
+        if serde_json::from_str::<Value>(&enc0).ok() != Some(want0.clone()) {
+            return fail("C17/json/earlier-document/roundtrip", json!({"earlier_document": text0, "later_document_parsed_into_the_same_variable": text, "encoded": enc0, "expected": want0}));
+        }
+        let _ = exec(&mut ctx, "release", &["-r".to_string(), r0]);
     }
     let _ = exec(&mut ctx, "release", &["-r".to_string(), root]);
     if handles(&ctx) != before {
@@ -358,6 +386,16 @@ fn case_properties(t: &mut Tape, st: &mut Stats) -> Verdict {
         other => return fail("C17/properties/map_to_properties", d("map_to_properties", json!(show(&other)))),
     };
     let h2 = val(&exec(&mut ctx, "map", &[])).flatten().unwrap();
+    // sometimes an earlier load of a malformed text into the same map was refused
+    if t.chance(1, 4) {
+        let bad = *t.pick_ref(&["zz1=1\nzz2=\\u00zz\n", "zz1 = 1\nzz2 = 2\nzz3=\\uq\n", "zz1:x\n\\u12=3\n"]);
+        ctx.variables.insert("badtext".into(), bad.to_string());
+        let r = exec(&mut ctx, "map_load_properties", &[h2.clone(), "${badtext}".to_string()]);
+        if val(&r) == Some(Some("true".into())) {
+            return Verdict::Discard("the malformed text was accepted");
+        }
+        st.class("properties-refused-load-before-the-read-back");
+    }
     ctx.variables.insert("text".into(), text.clone());
     let r = exec(&mut ctx, "map_load_properties", &[h2.clone(), "${text}".to_string()]);
     if val(&r) != Some(Some("true".into())) {
@@ -386,7 +424,7 @@ fn case_properties(t: &mut Tape, st: &mut Stats) -> Verdict {
 pub fn property() -> Property {
     Property {
         id: "C17",
-        rule: "(text) arbitrary Unicode texts incl. empty, NUL, controls, BOM, astral, delivered through a variable: bytes_to_string(string_to_bytes(t)) == t, base64_encode equals an independent reference encoder, bytes_to_string(base64_decode(base64_encode(..))) == t, handles released and the handle table back to its size; (hex) u64 edges and random values: hex_encode equals a reference, hex_decode(hex_encode(n)) == n; (json) documents from a grammar (depth <= 4/6, width <= 5/8, string/integer/edge-integer/dyadic-decimal/bool/null leaves, hazardous keys) in compact or pretty form: json_encode --collection(json_parse --collection d) equals normalise(d) as a JSON value (scalars to strings, nulls dropped), release -r returns the handle table to its size; (properties) maps with keys/values over '=', ':', '#', '!', spaces, LF, CR, tab, form feed, backslash, quotes, Latin-1 range, CJK, astral and random characters: map_load_properties(map_to_properties(m)) into a fresh map has the same keys and values. Non-trivial: text with a multi-byte or control character / JSON of depth >= 2 with a null / map with a non-alphanumeric character; distinct by input",
+        rule: "(text) arbitrary Unicode texts incl. empty, NUL, controls, BOM, astral, delivered through a variable: bytes_to_string(string_to_bytes(t)) == t, base64_encode equals an independent reference encoder, bytes_to_string(base64_decode(base64_encode(..))) == t, handles released and the handle table back to its size; (hex) u64 edges and random values: hex_encode equals a reference, hex_decode(hex_encode(n)) == n; (json) documents from a grammar (depth <= 4/6, width <= 5/8, string/integer/edge-integer/dyadic-decimal/bool/null leaves, hazardous keys) in compact or pretty form: json_encode --collection(json_parse --collection d) equals normalise(d) as a JSON value (scalars to strings, nulls dropped), release -r returns the handle table to its size - one case in three parses into an output variable that still holds the collection of an earlier parse kept under another name, which must still encode to its own document afterwards; (properties) maps with keys/values over '=', ':', '#', '!', spaces, LF, CR, tab, form feed, backslash, quotes, Latin-1 range, CJK, astral and random characters: map_load_properties(map_to_properties(m)) into a fresh map (one case in four: a map into which the load of a malformed text was refused just before) has the same keys and values. Non-trivial: text with a multi-byte or control character / JSON of depth >= 2 with a null / map with a non-alphanumeric character; distinct by input",
         assumptions: &[
             "a root-level null document and string leaves spelled like handles are not generated",
             "JSON numbers are generated in serde_json's canonical spelling",
@@ -394,9 +432,9 @@ pub fn property() -> Property {
         sections: vec![
             Section { name: "text", plan: |t| match t { Tier::Quick => Plan::Random { cases: 100_000, max_len: 60 }, Tier::Thorough => Plan::Random { cases: 8_000_000, max_len: 100 } }, case: case_text, min_classes: &[("empty-text", 1000), ("text-with-nul", 1000), ("text-starting-with-bom", 100)] },
             Section { name: "hex", plan: |t| match t { Tier::Quick => Plan::Random { cases: 40_000, max_len: 6 }, Tier::Thorough => Plan::Random { cases: 2_000_000, max_len: 6 } }, case: case_hex, min_classes: &[] },
-            Section { name: "json", plan: |t| match t { Tier::Quick => Plan::Random { cases: 60_000, max_len: 400 }, Tier::Thorough => Plan::Skip }, case: case_json_q, min_classes: &[("json-depth-2", 5000), ("json-with-null", 5000), ("json-hazardous-key", 5000)] },
+            Section { name: "json", plan: |t| match t { Tier::Quick => Plan::Random { cases: 60_000, max_len: 400 }, Tier::Thorough => Plan::Skip }, case: case_json_q, min_classes: &[("json-depth-2", 5000), ("json-with-null", 5000), ("json-hazardous-key", 5000), ("json-output-variable-holds-an-earlier-document", 5000)] },
             Section { name: "json-deep", plan: |t| match t { Tier::Quick => Plan::Skip, Tier::Thorough => Plan::Random { cases: 4_000_000, max_len: 1500 } }, case: case_json_t, min_classes: &[] },
-            Section { name: "properties", plan: |t| match t { Tier::Quick => Plan::Random { cases: 60_000, max_len: 160 }, Tier::Thorough => Plan::Random { cases: 4_000_000, max_len: 200 } }, case: case_properties, min_classes: &[("properties-latin1-range", 2000), ("properties-astral", 2000), ("properties-edge-space", 2000)] },
+            Section { name: "properties", plan: |t| match t { Tier::Quick => Plan::Random { cases: 60_000, max_len: 160 }, Tier::Thorough => Plan::Random { cases: 4_000_000, max_len: 200 } }, case: case_properties, min_classes: &[("properties-latin1-range", 2000), ("properties-astral", 2000), ("properties-edge-space", 2000), ("properties-refused-load-before-the-read-back", 5000)] },
         ],
         probes: vec![],
     }
